@@ -31,6 +31,8 @@ AttrAt(kind, i, pre) ==
     [] kind = "vmodel"  -> VModel(Member(pre \o "om", "t" \o N(i), S(<<49>>)), "none", "", Undefined, "none", <<>>)
     [] kind = "vmodelc" -> VModel(Member(pre \o "om", "t" \o N(i), S(<<49>>)), "computed2", "",
                                   Call(pre \o "fan" \o N(i), StrS(<<100, 121, 110>>, "dyn")), "array", <<"trim">>)
+    [] kind = "vmodels" -> VModels(<<VModel(Member(pre \o "om", "u" \o N(i), S(<<50>>)), "none", "", Undefined, "none", <<>>),
+                                      VModel(Member(pre \o "om", "w" \o N(i), S(<<51>>)), "str2", "title", Undefined, "array", <<"trim">>)>>)
     [] kind = "static"  -> Plain("s" \o N(i), AvStr(<<"a">>))
 
 Inner(pre) == Elem(TagHtml("span"), <<AttrAt("call", 1, pre)>>, <<ChExpr(Call(pre \o "gk", Num(5)))>>)
@@ -55,7 +57,8 @@ AttrSeqs == UNION {{[i \in 1..m |-> AttrAt(ks[i], i, "")] : ks \in [1..m -> Attr
 KidSeqs  == UNION {{[j \in 1..m |-> KidAt(ks[j], j)] : ks \in [1..m -> KidKinds]} : m \in 0..MaxKids}
 
 NamesOK(as) ==       \* only class / style / listeners / spreads may repeat (and `on` objects under transformOn, OnOK)
-  \A i, j \in 1..Len(as) : i < j /\ as[i].k = as[j].k /\ as[i].k \in {"vhtml", "vmodel", "vslots"} => FALSE
+  /\ \A i, j \in 1..Len(as) : i < j /\ as[i].k = as[j].k /\ as[i].k \in {"vhtml", "vmodel", "vmodels", "vslots"} => FALSE
+  /\ \A i, j \in 1..Len(as) : ~(as[i].k = "vmodels" /\ as[j].k = "vmodel")      \* the list already binds modelValue
 ValidFor(h, as) == (h.k = "frag" => as = <<>>) /\ NamesOK(as)
                    /\ \A i, j \in 1..Len(as) : i < j => ~(as[i].k \in {"vmodel", "vhtml"} /\ as[j].k = as[i].k)
 
